@@ -51,6 +51,7 @@ func VH_C10_Conn(scenario int) {
 	fc := &vhFakeConn{data: script}
 	c := NewConnWith(fc, ConnConfig{Topic: "t", Partition: 0, ClientID: "vh"})
 	vhGuardConn(c)
+	vhWatch(c)
 	vhGuardCheck(true)
 	switch scenario {
 	case 0:
@@ -68,6 +69,7 @@ func VH_C10_Conn(scenario int) {
 		vhGuarded(b, "conn", &b.mutex)
 		vhGuarded(b, "lock", &b.mutex)
 		vhGuarded(b, "msgs", &b.mutex)
+		vhWatch(b)
 		b.ReadMessage()
 		b.Offset()
 		b.HighWaterMark()
@@ -94,6 +96,8 @@ func VH_C10_Balancers() {
 	vhGuarded(rr, "ChunkSize", &rr.mutex)
 	lb := &LeastBytes{}
 	vhGuarded(lb, "counters", &lb.mutex)
+	vhWatch(rr)
+	vhWatch(lb)
 	vhGuardCheck(true)
 	rr.Balance(Message{}, parts...)
 	rr.Balance(Message{}, parts...)
@@ -115,9 +119,11 @@ func VH_C10_Writer(scenario int) {
 	}
 	vhGuarded(w, "closed", &w.mutex)
 	vhGuarded(w, "writers", &w.mutex)
+	vhWatch(w)
 	vhGuardCheck(true)
 	w.WriteMessages(context.Background(), Message{Value: []byte{1}}, Message{Value: []byte{2}})
 	for _, ptw := range w.writers {
+		vhWatch(ptw)
 		vhGuarded(ptw, "currBatch", &ptw.mutex)
 		vhGuarded(&ptw.queue, "queue", ptw.queue.mutex)
 		vhGuarded(&ptw.queue, "closed", ptw.queue.mutex)
@@ -139,6 +145,7 @@ func VH_C10_Generation() {
 	g := vhNewGeneration(&vhCoordinator{})
 	vhGuarded(g, "closed", &g.lock)
 	vhGuarded(g, "routines", &g.lock)
+	vhWatch(g)
 	vhGuardCheck(true)
 	g.Start(func(ctx context.Context) { <-ctx.Done() })
 	g.heartbeatLoop(time.Second)
@@ -156,6 +163,7 @@ func VH_C10_Transport() {
 	t := &Transport{Dial: func(ctx context.Context, network, address string) (net.Conn, error) { return nil, vhErrCoordinator }}
 	t.grabPool(TCP("vh:9092")).unref() // creates the map and the first pool
 	vhGuarded(t, "pools", &t.mutex)
+	vhWatch(t)
 	vhGuardCheck(true)
 	t.grabPool(TCP("vh:9092")).unref()  // fast path: existing pool
 	t.grabPool(TCP("other:9092")).unref() // slow path: new pool
@@ -226,6 +234,7 @@ func VH_C10_Reader() {
 	vhGuarded(r, "offset", &r.mutex)
 	vhGuarded(r, "lag", &r.mutex)
 	vhGuarded(r, "closed", &r.mutex)
+	vhWatch(r) // lockset analysis of every field of the Reader, declared or not
 	vhGuardCheck(true)
 	ctx := context.Background()
 	m, err := r.ReadMessage(ctx)
@@ -245,6 +254,12 @@ func VH_C10_Reader() {
 	<-closedCh
 	_ = r.Offset()
 	_ = r.Lag()
+	// Close reads Reader.cancel (and waits on Reader.join) without the mutex after it has marked the reader closed:
+	// from then on nobody may write the reader's mutable state - in particular not a late subscribe() from the
+	// consumer-group goroutine (a generation that arrives while Close runs)
+	vhGuarded(r, "cancel", "readonly")
+	vhGuarded(r, "version", "readonly")
+	r.subscribe(map[string][]PartitionAssignment{"t": {{ID: 0, Offset: 0}}})
 	vhGuardCheck(false)
 	vhReach("c10-reader")
 }
@@ -262,8 +277,10 @@ func VH_C10_ConnPool() {
 	p.dialTimeout = time.Second
 	p.dial = func(ctx context.Context, network, address string) (net.Conn, error) { return nil, vhErrCoordinator }
 	vhGuarded(p, "conns", &p.mutex)
+	vhWatch(p)
 	var all []*conn
 	for _, g := range []*connGroup{p.conns[vp.ids[0]], p.conns[vp.ids[1]], p.ctrl} {
+		vhWatch(g)
 		vhGuarded(g, "idleConns", &g.mutex)
 		vhGuarded(g, "closed", &g.mutex)
 		for _, c := range g.idleConns {
